@@ -103,3 +103,21 @@ PROPS["C11"] = dict(
     assumptions=["copy.deepcopy returns a structure sharing nothing mutable with its argument"],
     bounded=[],
 )
+
+PROPS["C12"] = dict(
+    level="other",
+    modules=["contracts.c_taproot"],
+    not_decided=["'altered in any bit no longer verifies' for all alterations needs collision resistance; single-bit flips are sampled"],
+    assumptions=["sha256 (tagged hashes) of hashlib"],
+    explanation="Bounded stand-ins (stated bounds) on both arithmetic arms against the BIP341 reference constructions on an independent EC implementation; not proved.",
+    bounded=[],
+)
+
+PROPS["C03"] = dict(
+    level="other",
+    modules=["contracts.c_ssa"],
+    not_decided=["batch verification true => every member verifies is probabilistic (over the library's own coefficients)"],
+    assumptions=["sha256 of hashlib"],
+    explanation="Bounded stand-ins (stated bounds) on both arithmetic arms against BIP340's reference algorithms on an independent EC implementation; not proved.",
+    bounded=[],
+)
